@@ -42,7 +42,14 @@ VARIES = (
     "between two validations in one process, certificates issued with Ed25519/RSA/P-384 keys, PIN "
     "files that are symbolic links, a link failure right after a time-out, a fatal request while "
     "other clients are queued, slow (not late) devices answering after 1..9 s, a second operator "
-    "grabbing the device while the first is at a prompt, long option names and -v/--verbose")
+    "grabbing the device while the first is at a prompt, long option names and -v/--verbose, "
+    "transactions of exactly chosen sizes (around 2^16, 2^17, 2^24 bytes), hashes/digests with "
+    "leading or trailing zero bytes, compressed coinbases claiming up to 2^60 hashed bytes, "
+    "certificates valid until year 9999, PIN paths through symlinked directories, scratch files on "
+    "another file system than the temp directory, link failures by power cycle, quiet periods of "
+    "up to a day (the clock the middleware reads is jumped) followed by version requests, "
+    "non-finite JSON numbers, other spellings of signatures, another device found after a "
+    "re-connection in the middle of a tool run, both heartbeat kinds on one manager")
 
 IDEAS = (
     "a code path only reached through a rarely used command-line option, environment variable or "
